@@ -873,14 +873,14 @@ class CExec:
             h = self.cx.field_call.get(fld)
             if h is None:
                 raise Unsupported("call through function-pointer field %s" % fld)
-            return self.ev(f, st, lambda fn, st2: self.ev_list(argn, st2, lambda args, st3: h(self, fn, args, st3, k)))
+            return self.ev(f, st, lambda fn, st2: self.ev_list(argn, st2, lambda args, st3: h(self, fn, args, self.api.protect_borrowed(st3, args, fld), k)))
         if f.get("kind") == "DeclRefExpr" and f["referencedDecl"].get("kind") in ("VarDecl", "ParmVarDecl"):
             # call through a local function-pointer variable: dispatched by the pointer's typedef name
             fam = {"trait_post_setattr": "post_setattr", "trait_validate": "validate", "trait_getattr": "getattr",
                    "trait_setattr": "setattr", "delegate_attr_name_func": "delegate_attr_name", "visitproc": "visitproc"}.get(f["type"]["qualType"])
             h = self.cx.field_call.get(fam)
             if h is not None:
-                return self.ev(f, st, lambda fn, st2: self.ev_list(argn, st2, lambda args, st3: h(self, fn, args, st3, k)))
+                return self.ev(f, st, lambda fn, st2: self.ev_list(argn, st2, lambda args, st3: h(self, fn, args, self.api.protect_borrowed(st3, args, fam), k)))
         raise Unsupported("indirect call")
 
     def call_named(self, name, args, st, k):
@@ -888,6 +888,8 @@ class CExec:
         if name in cx.summaries:
             return cx.summaries[name](self, args, st, k)
         if self.api.has(name):
+            if name in PYTHON_RUNNING_API:
+                st = self.api.protect_borrowed(st, args, name)
             return self.api.call(name, args, st, k)
         r = self.front.function(name)
         if r is not None:
@@ -902,6 +904,13 @@ class CExec:
                 self.label_ids = saved
                 cx.inline_depth -= 1
         raise Unsupported("call of %s: neither API primitive nor a function of ctraits.c" % name)
+
+
+# API entry points that run arbitrary Python code on (or with) their object arguments
+PYTHON_RUNNING_API = {"PyObject_Call", "PyObject_CallMethod", "PyObject_CallFunctionObjArgs", "PyObject_CallObject", "PyObject_GetAttr",
+                      "PyObject_SetAttr", "PyObject_GetAttrString", "PyObject_IsInstance", "PyObject_RichCompare", "PyObject_RichCompareBool",
+                      "PyObject_IsTrue", "PySequence_Contains", "PyNumber_Index", "PyNumber_Long", "PyFloat_AsDouble", "PyObject_Str",
+                      "PyObject_Repr", "PyObject_GenericGetAttr", "PyObject_GenericSetAttr", "PyObject_GetItem", "PyObject_SetItem"}
 
 
 def label_ids(decl):
